@@ -61,11 +61,11 @@ type c18KeyFacts struct {
 
 // index = key index in vuKeys()
 var c18Facts = []c18KeyFacts{
-	0: {known: true, account: "canonical", since: c18Date(2010, 1, 1)},                              // trusted root key
-	1: {known: true, account: "canonical", since: c18Date(2015, 1, 1)},                              // store key
-	2: {known: true, account: "other-brand", since: c18Date(2018, 1, 1)},                            // second authority
-	3: {known: true, account: "canonical", since: c18Date(2022, 6, 1), until: c18Date(2025, 6, 1)},  // window
-	4: {known: true, account: "canonical", since: c18Date(2015, 1, 1), constrained: true},           // constrained
+	0: {known: true, account: "canonical", since: c18Date(2010, 1, 1)},                               // trusted root key
+	1: {known: true, account: "canonical", since: c18Date(2015, 1, 1)},                               // store key
+	2: {known: true, account: "other-brand", since: c18Date(2018, 1, 1)},                             // second authority
+	3: {known: true, account: "canonical", since: c18Date(2022, 6, 1), until: c18Date(2025, 6, 1)},   // window
+	4: {known: true, account: "canonical", since: c18Date(2015, 1, 1), constrained: true},            // constrained
 	5: {known: false, since: c18Date(2015, 1, 1)},                                                    // no account-key anywhere
 	6: {known: false, since: c18Date(2015, 1, 1)},                                                    // subject of generated account-key assertions
 	7: {known: true, account: "other-brand", since: c18Date(2023, 1, 1), until: c18Date(2023, 7, 1)}, // window, second authority
@@ -467,7 +467,7 @@ func c18Framing(a, b []byte) string {
 		return ""
 	}
 	p += 2 + (int(a[p])<<8 | int(a[p+1])) // unhashed subpackets
-	p += 2                                 // hash tag
+	p += 2                                // hash tag
 	if p+2 > len(a) {
 		return ""
 	}
@@ -584,8 +584,27 @@ func c18Stored(db *asserts.Database, a asserts.Assertion) bool {
 	return bytes.Equal(c1, c2)
 }
 
+// c18NoPanic runs f and turns a panic inside snapd into an error value.
+func c18NoPanic(f func() error) (err error, panicked interface{}) {
+	defer func() {
+		if p := recover(); p != nil {
+			panicked = p
+		}
+	}()
+	return f(), nil
+}
+
+var c18HashUnavailable = regexp.MustCompile(`^crypto: requested hash function #[0-9]+ is unavailable$`)
+
 func c18MustReject(db *asserts.Database, a asserts.Assertion, why string) error {
-	if err := db.Check(a); err == nil {
+	err, p := c18NoPanic(func() error { return db.Check(a) })
+	if p != nil {
+		if msg := fmt.Sprint(p); c18HashUnavailable.MatchString(msg) {
+			return verifkit.Knownf("F-C18-4", "Check panics instead of rejecting (%s): %s", why, msg)
+		}
+		panic(p)
+	}
+	if err == nil {
 		return verifkit.Violatef("Check accepted an assertion that must be rejected (%s): %s", why, c18Short(a))
 	}
 	if err := db.Add(a); err == nil {
